@@ -203,6 +203,12 @@ fn const_j<'tcx>(tcx: TyCtxt<'tcx>, owner: DefId, c: &mir::ConstOperand<'tcx>) -
             }
             match c.const_ {
                 Const::Unevaluated(uv, _) => f.push(("item", J::s(dp(tcx, uv.def)))),
+                Const::Val(mir::ConstValue::Scalar(rustc_middle::mir::interpret::Scalar::Ptr(ptr, _)), _) => {
+                    let aid = ptr.provenance.alloc_id();
+                    if let Some(rustc_middle::mir::interpret::GlobalAlloc::Static(sd)) = tcx.try_get_global_alloc(aid) {
+                        f.push(("static", J::s(dp(tcx, sd))));
+                    }
+                }
                 _ => {}
             }
             f.push(("text", J::s(format!("{}", c.const_))));
